@@ -47,6 +47,8 @@ def schedules(pid, tier, seed):
             bub.append(g.sender(nid(), wrap=[254, 255, 256, 510][i % 4] if i % 6 == 5 else 0, tcp=(i % 7 == 6)))
         for i in range(6 if q else 40):
             bub.append(g.ack_once(nid()))
+        for status in (list(range(1, 256)) if not q else [1, 2, 0x21, 0x22, 0x23, 0x24, 0x25, 0x26, 0x27, 0x29, 0x2a, 0x30, 0x7f, 0x80, 0x99, 0xfe, 0xff]):
+            bub.append(g.ack_status(nid(), status))   # (a matching acknowledgement with every error status)
         for i in range(16 if q else 96):
             real.append(g.senders_rt(nid(), reconnect=(i % 2 == 1), group=(i % 4 == 2)))
     elif pid == 'C04':
